@@ -758,17 +758,10 @@ class Fetcher:
         else:
             title_to_authors = api.get_contributors([title])
 
-        # Process the results for each title
+        # Process the results for each title the API answered for (a redirected
+        # title is reported under its target)
         authors_dict = {}
-        title: str
-        for title in self.titles_pending_contributor_lookup[api]:
-            # Skip if the title is not in the results (e.g., if it was redirected)
-            if title not in title_to_authors:
-                continue
-
-            # Get the InspectAuthors object for this title
-            inspect_authors = title_to_authors[title]
-
+        for title, inspect_authors in title_to_authors.items():
             # Get the authors for this title
             authors = inspect_authors.get_authors()
 
@@ -1008,11 +1001,11 @@ class Fetcher:
         _, partial = title.split(":", 1)
         local_title = f"{local_nsname}:{partial}"
 
+        # Map the original title to the local title (used when the result is stored)
+        self.title_mapping[title] = local_title
+
         # Add the title to the batch
         self._add_to_titles_pending_contributor_lookup(title, api)
-
-        # Map the original title to the local title for later use
-        self.title_mapping[title] = local_title
 
     def _get_mwapi_for_path(self, path):
         urls = mwapi.guess_api_urls(path)
